@@ -52,11 +52,20 @@ func FromLibHeader(h *message.IKEHeader) model.Header {
 
 func ToLibPayloads(ps []model.Payload) (message.IKEPayloadContainer, error) {
 	var out message.IKEPayloadContainer
+	// payloads with identical content are ONE library object listed several times (see gen.Payloads): encoding a list is a
+	// function of its elements' contents, not of their identity
+	seen := map[string]message.IKEPayload{}
 	for i, p := range ps {
+		key := string(model.JSON(p))
+		if lp, ok := seen[key]; ok && len(key) < 20000 {
+			out = append(out, lp)
+			continue
+		}
 		lp, err := ToLibPayload(p)
 		if err != nil {
 			return nil, fmt.Errorf("payload %d: %w", i, err)
 		}
+		seen[key] = lp
 		out = append(out, lp)
 	}
 	return out, nil
